@@ -50,6 +50,22 @@ def long_prefix(rng, x, y, z, min_bytes=65700, deg=7, flat_z=True, dur=None):
     return segs
 
 
+def close_loops(rng, tr, prob=0.5):
+    """make some curved segments end exactly where they start (a loop or an out-and-back move in one segment): the end
+    point says nothing about what happens in between"""
+    cur = list(tr["start"])
+    for s in tr["segs"]:
+        loop = rng.random() < prob and any(len(s[ax]) >= 3 for ax in ("x", "y", "z", "yaw"))
+        for k, ax in enumerate(("x", "y", "z", "yaw")):
+            if s[ax]:
+                if loop:
+                    s[ax] = list(s[ax][:-1]) + [cur[k] if ax != "yaw" else s[ax][-1]]
+                    if ax == "yaw":
+                        s[ax][-1] = cur[k]
+                cur[k] = s[ax][-1]
+    return tr
+
+
 def bits_of_len(l):
     return {0: 0, 1: 1, 3: 2, 7: 3}[len(l)]
 
